@@ -29,6 +29,12 @@ pub enum Decision {
     GrpcHeader(u32),
     /// read the request, never answer, keep the connection open.
     Stall,
+    /// gRPC: answer the response head (200), then nothing: the message never comes.
+    StallAfterHead,
+    /// gRPC: head and the first bytes of the message, then nothing.
+    StallMidBody,
+    /// gRPC: head and the whole message, but never the `grpc-status` trailer.
+    StallBeforeTrailers,
     /// close the connection as soon as a request starts arriving, without reading its body.
     DropBefore,
     /// read the whole request, close the connection without a reply.
@@ -40,6 +46,9 @@ impl Decision {
         Some(match s {
             "ack" => Decision::Ack,
             "stall" => Decision::Stall,
+            "sth" => Decision::StallAfterHead,
+            "stm" => Decision::StallMidBody,
+            "stt" => Decision::StallBeforeTrailers,
             "dropb" => Decision::DropBefore,
             "dropa" => Decision::DropAfter,
             _ => {
@@ -58,6 +67,9 @@ impl Decision {
         match self {
             Decision::Ack => "ack".into(),
             Decision::Stall => "stall".into(),
+            Decision::StallAfterHead => "sth".into(),
+            Decision::StallMidBody => "stm".into(),
+            Decision::StallBeforeTrailers => "stt".into(),
             Decision::DropBefore => "dropb".into(),
             Decision::DropAfter => "dropa".into(),
             Decision::Status(n) => format!("s{n}"),
@@ -390,6 +402,9 @@ async fn serve_http1(mut sock: TcpStream, conn: u64, ep: Arc<Endpoint>) {
                 }
             }
             Decision::Stall => stalled = true,
+            // HTTP/1: the status line is the whole verdict; a 200 whose announced body never
+            // comes is still an acknowledgement (not generated for HTTP/1 scenarios)
+            Decision::StallAfterHead | Decision::StallMidBody | Decision::StallBeforeTrailers => stalled = true,
             Decision::DropBefore | Decision::DropAfter => return,
         }
     }
@@ -515,6 +530,18 @@ async fn h2_stream(
         Decision::Status(s) => {
             let r = http::Response::builder().status(s).body(()).unwrap();
             let _ = respond.send_response(r, true);
+        }
+        Decision::StallAfterHead | Decision::StallMidBody | Decision::StallBeforeTrailers => {
+            // the reply stalls in a later phase; the connection itself stays serviceable
+            let Ok(mut send) = respond.send_response(resp(200), false) else { return };
+            if d == Decision::StallMidBody {
+                let _ = send.send_data(Bytes::from_static(&[0, 0, 0]), false);
+            }
+            if d == Decision::StallBeforeTrailers {
+                let _ = send.send_data(Bytes::from_static(&[0, 0, 0, 0, 0]), false);
+            }
+            std::future::pending::<()>().await;
+            drop(send);
         }
         Decision::Stall => {
             stalled.store(true, Ordering::SeqCst);
